@@ -19,27 +19,27 @@ GEN = ("random well-formed histories from the seeded generator (tools/gen_engine
        "incl. equal values, expert nodes with scripted drivers; 8-60 actions each. ")
 
 PROPS = {
-    "C01": spec(["IncrVerif.Props.C01", "IncrVerif.Props.C03Order", "IncrVerif.Props.C01Global", "IncrVerif.Props.C01History", "IncrVerif.Props.C01MapRef"], [("static", 0.35), ("bind", 0.45), ("general", 0.2)], ["api", "read"],
+    "C01": spec(["IncrVerif.Props.C01", "IncrVerif.Props.C03Order", "IncrVerif.Props.C01Global", "IncrVerif.Props.C01History", "IncrVerif.Props.C01MapRef", "IncrVerif.Props.C03Nested"], [("static", 0.35), ("bind", 0.45), ("general", 0.2)], ["api", "read"],
                 GEN + "C01 histories use only equality-respecting cutoffs and pure map_with_old machines (the property's proviso); "
                 "non-trivial = distinct history with at least two successful observer reads and one node function invocation",
                 c01_safe=True),
-    "C02": spec(["IncrVerif.Props.C02", "IncrVerif.Props.C03Order", "IncrVerif.Props.C01Global", "IncrVerif.Props.C01History"], [("bind", 0.5), ("general", 0.3), ("static", 0.2)], ["api", "ev", "read"],
+    "C02": spec(["IncrVerif.Props.C02", "IncrVerif.Props.C03Order", "IncrVerif.Props.C01Global", "IncrVerif.Props.C01History", "IncrVerif.Props.C03Nested"], [("bind", 0.5), ("general", 0.3), ("static", 0.2)], ["api", "ev", "read"],
                 GEN + "both build profiles (in debug builds a glitch usually trips a debug assertion first; release builds show the "
                 "stale arguments); non-trivial = distinct history in which node functions ran",
                 builds=("debug", "release"), nq=200),
     "C06": spec(["IncrVerif.Props.C06", "IncrVerif.Props.C01Global", "IncrVerif.Props.C01History", "IncrVerif.Props.C01MapRef"], [("static", 0.25), ("general", 0.35), ("bind", 0.25), ("varw", 0.15)], ["api", "ev", "read"],
                 GEN + "all cutoff kinds on all node kinds incl. vars, equal-value writes, unobserve/re-observe; "
                 "non-trivial = distinct history in which node functions ran"),
-    "C14": spec(["IncrVerif.Props.C14"], [("expert", 1.0)], ["api", "ev", "read", "snap"],
+    "C14": spec(["IncrVerif.Props.C14", "IncrVerif.Props.C14History"], [("expert", 1.0)], ["api", "ev", "read", "snap"],
                 GEN + "profile expert: expert nodes (sum of dependencies / sum of what the edge callbacks stored) with scripted drivers: "
                 "join/bind pattern (select one of several targets by the driver's input, always or only when new), add + remove by position, "
                 "duplicate dependencies on one child, make_stale, dependencies added from outside while observed, observer churn; "
                 "non-trivial = distinct history in which an expert node was recomputed"),
-    "C03": spec(["IncrVerif.Props.C03", "IncrVerif.Props.C03Order"], [("bind", 0.7), ("general", 0.3)], ["api", "ev", "read", "snap"],
+    "C03": spec(["IncrVerif.Props.C03", "IncrVerif.Props.C03Order", "IncrVerif.Props.C03Nested"], [("bind", 0.7), ("general", 0.3)], ["api", "ev", "read", "snap"],
                 GEN + "both build profiles; generations are reconstructed from the trace (closure runs in order, consecutive node indices); "
                 "non-trivial = distinct history in which a bind closure ran at least twice",
                 builds=("debug", "release"), nq=200),
-    "C04": spec(["IncrVerif.Props.C04", "IncrVerif.Props.C01History"], [("general", 0.3), ("bind", 0.3), ("expert", 0.2), ("subs", 0.1), ("varw", 0.1)],
+    "C04": spec(["IncrVerif.Props.C04", "IncrVerif.Props.C01History", "IncrVerif.Props.C03Nested"], [("general", 0.3), ("bind", 0.3), ("expert", 0.2), ("subs", 0.1), ("varw", 0.1)],
                 ["api"], GEN + "both build profiles (debug assertions on and off); non-trivial = distinct history in which node functions ran",
                 builds=("debug", "release"), nq=200),
     "C05": spec(["IncrVerif.Props.C05", "IncrVerif.Props.C01History"], [("general", 0.3), ("bind", 0.3), ("expert", 0.25), ("life", 0.15)], ["api", "ev", "stats"],
@@ -47,7 +47,7 @@ PROPS = {
     "C07": spec(["IncrVerif.Props.C07", "IncrVerif.Props.C10History"], [("varw", 0.35), ("general", 0.3), ("life", 0.15), ("expert", 0.2)], ["api", "read", "ev"],
                 GEN + "reads of every observer after every action, and from inside node functions and handlers (readobs effects); "
                 "non-trivial = distinct history with observer reads that succeed"),
-    "C08": spec(["IncrVerif.Props.C08"], [("varw", 0.7), ("general", 0.3)], ["api", "ev", "read", "stats"],
+    "C08": spec(["IncrVerif.Props.C08", "IncrVerif.Props.C08History"], [("varw", 0.7), ("general", 0.3)], ["api", "ev", "read", "stats"],
                 GEN + "profile varw: writes from node functions and handlers, several readers; non-trivial = distinct history in which node functions ran"),
     "C10": spec(["IncrVerif.Props.C10", "IncrVerif.Props.C10History"], [("life", 0.6), ("subs", 0.4)], ["api", "read", "ev"],
                 GEN + "profile life: observer-API heavy; non-trivial = distinct history with observer reads"),
@@ -86,7 +86,7 @@ PROPS = {
                 "(insert/remove/change/empty/refill/equal), writes to the outer variable, observe/unobserve/re-observe, final drop of everything; "
                 "non-trivial = distinct history in which a per-key function was built",
                 builds=("debug", "release"), nq=150, nt=6000),
-    "C20": spec(["IncrVerif.Props.C20"], [("memo", 1.0)], ["api", "ev", "read", "snap"],
+    "C20": spec(["IncrVerif.Props.C20", "IncrVerif.Props.C20History"], [("memo", 1.0)], ["api", "ev", "read", "snap"],
                 "profile memo: two memoised functions (templates over outer vars and the key) called from top level and from bind bodies incl. a nested "
                 "bind, returned nodes observed / handles dropped, binds re-run by writes, stabilises in between, final drop of everything; "
                 "non-trivial = distinct history in which a memoised function ran"),
@@ -99,7 +99,7 @@ PROPS = {
                 "armed panic fired",
                 derive="fault", require_wf=False, nq=60, nt=1500),
     "C09": dict(
-        modules=["IncrVerif.Props.C09", "IncrVerif.Props.C10History", "IncrVerif.Props.C09History"],
+        modules=["IncrVerif.Props.C09", "IncrVerif.Props.C10History", "IncrVerif.Props.C09History", "IncrVerif.Props.C08History"],
         profiles=[("subs", 0.5), ("general", 0.3), ("bind", 0.2)],
         builds=["debug"],
         channels=["api", "ev", "read"],
